@@ -229,6 +229,17 @@ def lookAhead (fuel : Nat) : Nat → LAName → P Unit
 
 def la (n : LAName) : P Unit := lookAhead ctx 0 8 n
 
+/-- `array [ size ] of base` of `parse_array_type` (the base type parser is a parameter) -/
+def arrayTypeInner (size : Option IntLiteral) (base : Option (Ref TypeExpr))
+    (pt : Option (Ref TypeExpr) → P (Ref TypeExpr)) : P (Option IntLiteral × Option (Ref TypeExpr)) :=
+  bind (tk ctx .Array) (fun _ =>
+    bind (expect none (inc (tk ctx .LBracket)) (.ExpectedToken ['['])) (fun _ =>
+    bind (expect size (parseIntLiteral ctx) (.ExpectedToken (chars "int literal"))) (fun sz =>
+    bind (expect none (inc (tk ctx .RBracket)) (.MissingClosing ']')) (fun _ =>
+    bind (expect none (inc (tk ctx .Of)) (.ExpectedToken (chars "of"))) (fun _ =>
+    bind (expect base pt (.ExpectedToken (chars "type expression"))) (fun b =>
+      pure' (sz, b)))))))
+
 mutual
   /-- `TypeExpression::parse`. -/
   def parseTypeExpr : Nat → Option TypeExpr → P TypeExpr
@@ -248,13 +259,7 @@ mutual
       affected ctx typeExprOps this
         (pmap (fun (p : (Option IntLiteral × Option (Ref TypeExpr)) × AstInfo) =>
             TypeExpr.array p.1.1 (OptType.ofOption p.1.2) p.2)
-          (info (bind (tk ctx .Array) (fun _ =>
-            bind (expect none (inc (tk ctx .LBracket)) (.ExpectedToken ['['])) (fun _ =>
-            bind (expect size (parseIntLiteral ctx) (.ExpectedToken (chars "int literal"))) (fun sz =>
-            bind (expect none (inc (tk ctx .RBracket)) (.MissingClosing ']')) (fun _ =>
-            bind (expect none (inc (tk ctx .Of)) (.ExpectedToken (chars "of"))) (fun _ =>
-            bind (expect base (refParse (parseTypeExpr fuel)) (.ExpectedToken (chars "type expression"))) (fun b =>
-              pure' (sz, b))))))))))
+          (info (arrayTypeInner ctx size base (refParse (parseTypeExpr fuel)))))
 end
 
 def typeFuel : Nat := ctx.toks.size + 2
